@@ -22,6 +22,7 @@ def SpPc.existing : SpPc → Option Nat
 @[simp] theorem sp_setThread_lock (st : SpState) (t : Tid) (th : SpThread) : (st.setThread t th).lock = st.lock := rfl
 @[simp] theorem sp_setThread_sysPath (st : SpState) (t : Tid) (th : SpThread) : (st.setThread t th).sysPath = st.sysPath := rfl
 @[simp] theorem sp_setThread_known (st : SpState) (t : Tid) (th : SpThread) : (st.setThread t th).known = st.known := rfl
+@[simp] theorem sp_setThread_missing (st : SpState) (t : Tid) (th : SpThread) : (st.setThread t th).missing = st.missing := rfl
 
 structure SpInv (ex : Nat → Bool) (base : List Nat) (st : SpState) : Prop where
   mutex : ∀ t, (st.threads t).pc.inCS = true ↔ st.lock = some t
